@@ -1,0 +1,20 @@
+//go:build verif
+
+package postgresql
+
+// Add-only accessors for the verification harness (built only with -tags verif).
+
+// VerifPendingQueries returns the SQL text of the queued query packets, head first.
+func (p *PgProtocolState) VerifPendingQueries() []string {
+	p.pendingQueryPackets.mutex.RLock()
+	defer p.pendingQueryPackets.mutex.RUnlock()
+	var out []string
+	for _, l := range p.pendingQueryPackets.lists {
+		for e := l.Front(); e != nil; e = e.Next() {
+			if q, ok := e.Value.(queryPacket); ok {
+				out = append(out, q.GetSQLQuery())
+			}
+		}
+	}
+	return out
+}
